@@ -699,6 +699,11 @@ func extractC26(repo string) (string, error) {
 		return "", err
 	}
 	b.WriteString(facts)
+	cf2, err := c26ConnFacts(repo)
+	if err != nil {
+		return "", err
+	}
+	b.WriteString(cf2)
 	b.WriteString("end WK.Gen.C26\n")
 	return b.String(), nil
 }
@@ -836,4 +841,88 @@ func c26IsErrReturn(s ast.Stmt, errVar string) bool {
 	}
 	r, ok := ifs.Body.List[0].(*ast.ReturnStmt)
 	return ok && len(r.Results) == 2 && exprText(r.Results[1]) == errVar
+}
+
+// c26ConnFacts: how conn.Call and the read loop use the pending table (facts the
+// correlation model assumes: unique ids, private buffered(1) channel, Store before
+// the request can leave, Complete keyed by the frame's own request id).
+func c26ConnFacts(repo string) (string, error) {
+	_, cf, err := parseFile(repo, "pkg/transport/internal/conn/conn.go")
+	if err != nil {
+		return "", err
+	}
+	call := findMethod(cf, "Conn", "Call")
+	if call == nil {
+		return "", fmt.Errorf("conn.go: Conn.Call not found")
+	}
+	recv := call.Recv.List[0].Names[0].Name
+	idx := map[string]int{}
+	idVar, chVar := "", ""
+	for i, st := range call.Body.List {
+		switch v := st.(type) {
+		case *ast.AssignStmt:
+			if len(v.Lhs) == 1 && len(v.Rhs) == 1 {
+				rhs := exprText(v.Rhs[0])
+				switch {
+				case rhs == recv+".nextRequestID.Add(1)" && v.Tok == token.DEFINE:
+					idVar = exprText(v.Lhs[0])
+					idx["id"] = i
+				case c26IsMakeChan1(v.Rhs[0]) && v.Tok == token.DEFINE:
+					chVar = exprText(v.Lhs[0])
+					idx["chan"] = i
+				}
+			}
+		case *ast.ExprStmt:
+			if exprText(v.X) == recv+".pending.Store("+idVar+","+chVar+")" && idVar != "" && chVar != "" {
+				idx["store"] = i
+			}
+		case *ast.IfStmt:
+			if v.Init != nil && strings.HasPrefix(exprTextInit(v.Init), recv+".Send(") {
+				idx["send"] = i
+			}
+		}
+	}
+	_, okID := idx["id"]
+	_, okCh := idx["chan"]
+	st, okSt := idx["store"]
+	sd, okSd := idx["send"]
+	// the outbound frame carries the same id
+	carries := false
+	ast.Inspect(call.Body, func(n ast.Node) bool {
+		if as, ok := n.(*ast.AssignStmt); ok && len(as.Lhs) == 1 && len(as.Rhs) == 1 &&
+			strings.HasSuffix(exprText(as.Lhs[0]), ".RequestID") && exprText(as.Rhs[0]) == idVar && idVar != "" {
+			carries = true
+		}
+		return true
+	})
+	h := findMethod(cf, "Conn", "handleRPCResponse")
+	if h == nil {
+		return "", fmt.Errorf("conn.go: Conn.handleRPCResponse not found")
+	}
+	completes, good := 0, 0
+	ast.Inspect(h.Body, func(n ast.Node) bool {
+		if c, ok := n.(*ast.CallExpr); ok && strings.HasSuffix(exprText(c.Fun), ".pending.Complete") {
+			completes++
+			if len(c.Args) == 2 && exprText(c.Args[0]) == "frame.Header.RequestID" {
+				good++
+			}
+		}
+		return true
+	})
+	var b strings.Builder
+	fmt.Fprintf(&b, "/-- conn.Call: the request id comes from the connection's atomic counter (unique per connection) and is the id put on the wire -/\ndef callIdFromAtomicCounter : Bool := %v\n", okID && carries)
+	fmt.Fprintf(&b, "/-- conn.Call: the response channel is private to the call and buffered(1) -/\ndef callChannelBuffered1 : Bool := %v\n", okCh)
+	fmt.Fprintf(&b, "/-- conn.Call: pending.Store(id, ch) precedes Send -/\ndef callStoreBeforeSend : Bool := %v\n", okSt && okSd && st < sd && idx["id"] < st && idx["chan"] < st)
+	fmt.Fprintf(&b, "/-- handleRPCResponse: every pending.Complete is keyed by the frame's own request id -/\ndef completeKeyedByFrameRequestID : Bool := %v\n\n", completes > 0 && completes == good)
+	return b.String(), nil
+}
+
+// c26IsMakeChan1 recognises `make(chan rpc.Response, 1)`.
+func c26IsMakeChan1(e ast.Expr) bool {
+	c, ok := e.(*ast.CallExpr)
+	if !ok || exprText(c.Fun) != "make" || len(c.Args) != 2 || exprText(c.Args[1]) != "1" {
+		return false
+	}
+	ct, ok := c.Args[0].(*ast.ChanType)
+	return ok && ct.Dir == ast.SEND|ast.RECV && exprText(ct.Value) == "rpc.Response"
 }
